@@ -4,6 +4,7 @@ import Rangers.Model.Bls14Verify
 import Rangers.Model.Bls14Hash
 import Rangers.Model.Bls14Jac
 import Rangers.Model.Bls14G2
+import Rangers.Model.Bls14Pairing
 /-!
 Line-protocol driver for C14. One op per line; see harness/cmd/c14/main.go for the
 Go side. Anything that does not parse answers `bad-op` (never a default).
@@ -52,6 +53,15 @@ def pt2List? : List String → Option (List Pt2)
     let p ← pt2? h
     let ps ← pt2List? t
     pure (p :: ps)
+
+/-- parse a GT element: 384 bytes, twelve coordinates reduced mod p (as `GT.Unmarshal` does) -/
+def gt? (h : String) : Option F12 := do
+  let b ← ofHex? h
+  if b.length != 384 then none
+  let c (i : Nat) : Nat := beToNat ((b.drop (32 * i)).take 32) % P
+  let f2 (i : Nat) : F2 := ⟨c i, c (i + 1)⟩
+  let f6 (i : Nat) : F6 := ⟨f2 i, f2 (i + 2), f2 (i + 4)⟩
+  some ⟨f6 0, f6 6⟩
 
 def g1ValStr : G1Val → String
   | .nil => "nil"
@@ -166,6 +176,32 @@ def step (_ : Unit) (line : String) : Unit × String :=
       let x := jMul (Jac.ofPt p) k
       toHex (jMarshal (jAdd x x)) ++ " " ++ toHex (jMarshal (jNeg x)) ++ " " ++ toHex (jMarshal (jAdd x (jNeg x)))
     | _, _ => "bad-op"
+  | ["pair", a, b] => match pt? a, pt2? b with
+    | some p, some q => toHex (pair p q).marshal
+    | _, _ => "bad-op"
+  | ["miller", a, b] => match pt? a, pt2? b with
+    | some p, some q => match millerPt p q with
+      | some v => toHex v.marshal
+      | none => "bad-op"
+    | _, _ => "bad-op"
+  | ["gtmul", a, b] => match gt? a, gt? b with
+    | some x, some y => toHex (x.mul y).marshal
+    | _, _ => "bad-op"
+  | ["gtexp", a, k] => match gt? a, k.toNat? with
+    | some x, some k => toHex (x.exp k).marshal
+    | _, _ => "bad-op"
+  | ["gtconj", a] => match gt? a with
+    | some x => toHex x.conj.marshal
+    | none => "bad-op"
+  | ["gtfin", a] => match gt? a with
+    | some x => toHex (finalExponentiation x).marshal
+    | none => "bad-op"
+  | ["verifyp", pkh, msg, sigh, hmh] => match ofHex? pkh, ofHex? sigh, pt? hmh with
+    -- nothing from an oracle: H(m) and both pairings are computed by the model
+    | some pkb, some sigb, some _ => match hmChecked? msg hmh with
+      | some hm => verdictStr (verifyBytesFull pkb sigb hm)
+      | none => "hm-mismatch"
+    | _, _, _ => "bad-op"
   | ["g2neg", a] => match pt2? a with
     | some p => toHex (g2Marshal p.neg)
     | none => "bad-op"
